@@ -425,15 +425,20 @@ func (h *harness) endGen(k, n int, c *refhsms.Conn, p genPlan) {
 		w.Fault("sndfull")
 		c.L.SetCap(40)
 		c.L.Stall(false, 0)
-		if k := w.T.Choose("stall", 12); k < 8 {
-			// one writer is withheld for a few milliseconds right after the k-th time a writer releases a
-			// lock: whatever it still does to the socket after that (a late deadline clear) lands on the
-			// next writer's blocked write — which the write timeout must still end
-			for j := 0; j < 3; j++ {
-				w.HoldNth = append(w.HoldNth, &core.NthHold{Prefix: "mu.Unlock", Skip: k + 3*j, D: 5 * time.Millisecond, Label: "writer-after-unlock",
-					Filter: func(g *simhook.G) bool { return g.App || w.Roles[g.ID] == "asender" },
-					OnFire: func(g *simhook.G) { h.markStalled(g.Name) }})
+		if k := w.T.Choose("stall", 12); k < 10 {
+			// the writer whose frame has just filled the send buffer is withheld for a few milliseconds
+			// right after it releases a lock (k < 8), or some writer after its k-th unlock (k = 8, 9):
+			// whatever it still does to the socket after that (a late deadline clear) lands on the next
+			// writer's blocked write — which the write timeout must still end
+			full := func() bool { return 40-c.L.ToPeer().InFlight()-c.L.ToPeer().Unread() < 14 }
+			nh := &core.NthHold{Prefix: "mu.Unlock", D: 5 * time.Millisecond, Label: "writer-after-unlock",
+				Filter: func(g *simhook.G) bool { return (g.App || w.Roles[g.ID] == "asender") && full() },
+				OnFire: func(g *simhook.G) { h.markStalled(g.Name) }}
+			if k >= 8 {
+				nh.Skip = 3 * (k - 8)
+				nh.Filter = func(g *simhook.G) bool { return g.App || w.Roles[g.ID] == "asender" }
 			}
+			w.HoldNth = append(w.HoldNth, nh)
 		}
 		// make sure the library has something to write: a burst of Linktest.req whose answers fill
 		// the stalled pipe, so a write blocks and the write timeout fires
